@@ -36,11 +36,12 @@ PROPS["C15"] = dict(
     # journal is shared with everything else that runs; the cap is only the safety net of DESIGN 2.3(5)
     wall_cap=dict(quick=900, thorough=7200),
     require_classes=dict(all=["policy.counted", "policy.maxsize", "via.policy", "via.handler", "gens.1", "write.append", "write.roll",
-                              "write.boundary_exact", "reopen.nonempty", "reopen.empty", "reopen.roll", "roll.dropped_oldest"]),
+                              "write.boundary_exact", "write.oversized_message", "reopen.nonempty", "reopen.empty", "reopen.roll", "roll.dropped_oldest"]),
     assumptions=[
         "a message is text + one newline byte (PolicyBase::writeMessage writes msg_text << std::endl); sizes are bytes on disk",
-        "every message fits into an empty file under the strictest reading (text+newline strictly below the MaxSize limit), so no "
-        "reading of the limit forces two rolls for one message",
+        "ordinary messages fit into an empty file under the strictest reading (text+newline strictly below the MaxSize limit), so no "
+        "reading of the limit forces two rolls for one message; additionally MaxSize histories contain messages LONGER than the limit: "
+        "such a message may exceed the limit only alone in its generation, and both 'append to an empty current file' and 'roll first' are accepted for it",
         "MaxSize boundary convention is undocumented and read generously: when text+newline would make the file exactly as large as "
         "the limit both appending and rolling are accepted; appending is wrong only above the limit, rolling only strictly below it",
         "Counted: 'maximum number of entries to write into a log file' / writeCheck 'maximum not yet reached' - a file holds up to "
